@@ -14,12 +14,15 @@ FLAVOURS = {
     # name: (compiler, std, extra flags)
     "unchecked": ("g++", "c++17", ["-O1", "-g", "-DSBEPP_DISABLE_ASSERTS"]),
     "checked": ("g++", "c++17", ["-O1", "-g", "-DSBEPP_ENABLE_ASSERTS_WITH_HANDLER"]),
-    # C++23 (the bit_cast / ranges / operator<=> paths of sbepp.hpp and, beyond C++20, the std::byteswap one:
-    # SBEPP_HAS_BYTESWAP) and std::byte views, unoptimised. The C++20 configuration (bit_cast with the library's own
-    # byteswap) stays covered by the clang flavours of the thorough tier and by the unchecked dynarr build
+    # C++23: the bit_cast / ranges / operator<=> paths of sbepp.hpp, std::byte views, unoptimised. (With bit_cast
+    # available no byte swap function is used at all: get/set_primitive reverse-copy. The std::byteswap branch is only
+    # reachable with SBEPP_HAS_BITCAST overridden to 0: that is what the clang unchecked flavour of the thorough tier does.)
     "unchecked_O0": ("g++", "c++2b", ["-O0", "-g", "-DSBEPP_DISABLE_ASSERTS", "-DWIRE_BYTE=std::byte"]),
     "checked_clang20": ("clang++", "c++20", ["-O1", "-g", "-DSBEPP_ENABLE_ASSERTS_WITH_HANDLER", "-DWIRE_BYTE=unsigned char"]),
-    "unchecked_clang20": ("clang++", "c++20", ["-O1", "-g", "-DSBEPP_DISABLE_ASSERTS"]),
+    "unchecked_clang20": ("clang++", "c++2b", ["-O1", "-g", "-DSBEPP_DISABLE_ASSERTS", "-DSBEPP_HAS_BITCAST=0"]),  # memcpy + std::byteswap branch
+    # not used by any check: tools/coverage_probe.py measures which lines of sbepp.hpp the drivers execute
+    "cov_checked": ("clang++", "c++20", ["-O0", "-g", "-fprofile-instr-generate", "-fcoverage-mapping", "-DSBEPP_ENABLE_ASSERTS_WITH_HANDLER", "-DWIRE_BYTE=unsigned char"]),
+    "cov_unchecked": ("clang++", "c++20", ["-O0", "-g", "-fprofile-instr-generate", "-fcoverage-mapping", "-DSBEPP_DISABLE_ASSERTS"]),
 }
 
 
@@ -90,7 +93,8 @@ def build(tier, flavours):
                         use.append(o)
                     elif "reduced_" + o not in failed:
                         use.append("reduced_" + o)  # else: left out altogether
-                jobs.append(("wire_" + fl, [cxx] + use + ["-o", "wire_" + fl]))
+                prof = ["-fprofile-instr-generate"] if "-fprofile-instr-generate" in FLAVOURS[fl][2] else []
+                jobs.append(("wire_" + fl, [cxx] + prof + use + ["-o", "wire_" + fl]))
             return jobs
 
         return [compile_jobs, retry_stage, link_stage]
